@@ -8,11 +8,13 @@ package main
 import (
 	"bytes"
 	"context"
+	"crypto/tls"
 	"flag"
 	"fmt"
 	"io"
 	"log"
 	"math/rand"
+	"net"
 	"os"
 	"reflect"
 	"runtime"
@@ -272,6 +274,25 @@ func raceTLS() {
 			for k := 0; k < 3; k++ {
 				c.DiscoverVersions(nil)
 			}
+		}()
+	}
+	// independent Clients that share ONE *tls.Config (a tls.Config may be shared: neither crypto/tls nor a library built
+	// on it writes to it), host name left to be derived from the endpoint, by name and by address
+	shared := &tls.Config{RootCAs: p.pool}
+	kmip.DefaultClientTLSConfig(shared)
+	shared.Certificates = append(shared.Certificates, p.client["valid"])
+	_, port, _ := net.SplitHostPort(l.Addr().String())
+	for i := 0; i < 4; i++ {
+		wg.Add(1)
+		endpoint := []string{"localhost:" + port, "127.0.0.1:" + port}[i%2]
+		go func() {
+			defer wg.Done()
+			c := &kmip.Client{Endpoint: endpoint, TLSConfig: shared, ReadTimeout: time.Second, WriteTimeout: time.Second}
+			if err := c.Connect(); err != nil {
+				return
+			}
+			defer c.Close()
+			c.DiscoverVersions(nil)
 		}()
 	}
 	wg.Wait()
